@@ -150,8 +150,16 @@ func HarnessC14Group(a []int) {
 // with its own number) are sent through a client built by NewRouter, then all R retained ones are
 // reported lost: the repetitions are those R telegrams, in order, byte for byte (history storage that
 // only shows with a full default-sized history and realistic payload sizes).
+//
+// With a third argument N the history is N telegrams long (300: ten times the default history) and the
+// lost indication claims 65535 lost telegrams: exactly the last R are repeated - the history never
+// holds more than R, however long the client has been sending.
 func HarnessC14Big(a []int) {
 	R, n := a[0], a[1]
+	N, claim := R+2, R
+	if len(a) > 2 {
+		N, claim = a[2], 65535
+	}
 	router, in := newRouterEnv(uint(R), 0)
 	mk := func(i int) cemi.Message {
 		data := make([]byte, n)
@@ -162,11 +170,12 @@ func HarnessC14Big(a []int) {
 		return &cemi.LDataInd{LData: cemi.LData{Control1: cemi.Control1NoRepeat, Control2: cemi.Control2GroupAddr,
 			Destination: uint16(100 + i), Data: &cemi.AppData{Command: cemi.GroupValueWrite, Data: data}}}
 	}
-	for i := 0; i < R+2; i++ {
+	for i := 0; i < N; i++ {
 		verifAssert("C14.big.sent", router.Send(mk(i)) == nil)
 	}
 	base := verifNetWrites()
-	in <- &knxnet.RoutingLost{Count: uint16(R)}
+	verifAssert("C14.big.one_datagram_per_send", base == N)
+	in <- &knxnet.RoutingLost{Count: uint16(claim)}
 	verifSleep(int64(time.Second))
 	verifQuiesce()
 	verifAssert("C14.big.resent_count", verifNetWrites() == base+R)
@@ -177,7 +186,7 @@ func HarnessC14Big(a []int) {
 		verifAssert("C14.big.decodes", err == nil && ok)
 		ld, ok := ind.Payload.(*cemi.LDataInd)
 		verifAssert("C14.big.kind", ok)
-		i := 2 + k
+		i := N - R + k
 		verifAssert("C14.big.order", int(ld.Destination) == 100+i)
 		app, ok := ld.Data.(*cemi.AppData)
 		verifAssert("C14.big.payload_len", ok && len(app.Data) == n)
